@@ -1,4 +1,5 @@
 import ZstdVerif.Model.FSEEnc
+import ZstdVerif.Model.NCountW
 import Driver.Util
 /-
 Line-protocol driver of the FSE encoder model (Model/FSEEnc.lean) and of the FSE decoding-table model (Model/FSE.lean); the C side
@@ -6,6 +7,12 @@ is harness/zvh_fseenc.c, the differential check tools/ent_fse.py.
   ctable <tableLog> <c0,c1,...>            -> ok log=<tableLog> st=<stateTable> tt=<deltaNbBits:deltaFindState,...> spreadOK=<b> spreadEncEqDec=<b>
   dtable <tableLog> <c0,c1,...>            -> ok cells=<sym:nbBits:newState,...>
   enc <tableLog> <c0,c1,...> <s0,s1,...>   -> ok <hex of the bit stream>
+  seqtableLL|seqtableOF|seqtableML <tableLog> <c0,c1,...>   -> ok cells=<nextState:nbAddBits:nbBits:baseValue,...>   (ZSTD_buildFSETable)
+  ncount <tableLog> <c0,c1,...>            -> ok <hex of NCountW.writeNCount? norm tableLog>  |  err generic  (the model's `none`)
+                                              FSE_writeNCount's own two guards in front of FSE_writeNCount_generic are answered here, not
+                                              by the model: tableLog > FSE_MAX_TABLELOG -> err tableLog_tooLarge, < FSE_MIN_TABLELOG -> err generic
+  rncount <maxSV> <hex|->                  -> ok log=<tableLog> norm=<c0,...,c_maxSVout> used=<bytes read>   (FSE.readNCount bytes 0 bytes.size maxSV)
+                                              |  err <Err.cls>  (the site FSE:127 is printed as maxSymbolValue_tooSmall, the C error code there)
 -/
 namespace Driver.FSEEnc
 open ZstdVerif
@@ -64,6 +71,20 @@ def encLine (norm : Array Int) (log : Nat) (syms : List Nat) : String :=
   if syms.isEmpty || syms.any (fun s => s ≥ norm.size || norm[s]! == 0) then "err usage" else
   "ok " ++ streamHex (FSE.encodeAll (FSE.buildCTable norm log) syms)
 
+/-- FSE_writeNCount (fse_compress.c): its two table-log guards, then FSE_writeNCount_generic = `NCountW.writeNCount?` -/
+def ncountLine (norm : Array Int) (log : Nat) : String :=
+  if log > ZstdVerif.Gen.FSE_MAX_TABLELOG then "err tableLog_tooLarge"
+  else if log < ZstdVerif.Gen.FSE_MIN_TABLELOG then "err generic"
+  else match NCountW.writeNCount? norm log with
+    | none => "err generic"
+    | some b => "ok " ++ (if b.size = 0 then "-" else b.toHex)
+
+/-- FSE_readNCount (entropy_common.c) on exactly `bytes` -/
+def rncountLine (maxSV : Nat) (bytes : ByteArray) : String :=
+  match FSE.readNCount bytes 0 bytes.size maxSV with
+  | .ok r => s!"ok log={r.tableLog} norm={commaSep (r.norm.toList.map toString)} used={r.used}"
+  | .error e => "err " ++ (if e.site == "FSE:127" then "maxSymbolValue_tooSmall" else e.cls)
+
 def step (_ : Unit) (ws : List String) : Unit × String :=
   match ws with
   | ["ctable", l, cs] =>
@@ -86,6 +107,14 @@ def step (_ : Unit) (ws : List String) : Unit × String :=
       match l.toNat?, parseInts cs with
       | some log, some norm => ((), seqtableLine norm log ZstdVerif.Gen.ML_base ZstdVerif.Gen.ML_bits)
       | _, _ => ((), "err usage")
+  | ["ncount", l, cs] =>
+      match l.toNat?, parseInts cs with
+      | some log, some norm => ((), ncountLine norm log)
+      | _, _ => ((), "err usage")
+  | ["rncount", m, hx] =>
+      match m.toNat? with
+      | some maxSV => ((), if maxSV > 255 then "err usage" else rncountLine maxSV (if hx == "-" then ByteArray.empty else ByteArray.ofHex hx))
+      | none => ((), "err usage")
   | ["enc", l, cs, ss] =>
       match l.toNat?, parseInts cs, parseNats ss with
       | some log, some norm, some syms => ((), encLine norm log syms)
